@@ -143,11 +143,10 @@ unknown_field:
 			if (!result)
 				throw MissingMandatoryField("Unable to extract fixed width field");
 
-			const unsigned short lasttv(tv);
 			tv = tag_to_fnum(tag);
 			if ((itr = _fp.get_presence().find(tv)) == _fp.get_presence().end())
 				goto unknown_field;
-			if (itr->_ftype != FieldTrait::ft_data || lasttv + 1 != tv) // next field must be data, tag must be 1 greater than length tag
+			if (itr->_ftype != FieldTrait::ft_data) // next field must be data (its tag need not follow the length tag: SignatureLength 93 / Signature 89)
 				break;
 			s_offset += result;
 		}
